@@ -65,6 +65,10 @@ def parse_type(s):
             return ('reclist', parts[0].strip())
         if head in ('map',):
             return ('map', parse_type(parts[0]), parse_type(parts[1]))
+        if head == 'exc':
+            return ('exc', parts[0].strip())           # an exception instance of exactly this class
+        if head == 'Exc':
+            return ('excunder', parts[0].strip())      # an instance of some subclass (one alternative per representative)
         raise ValueError('unknown type %r' % s)
     if s.startswith("'") and s.endswith("'"):
         return ('const', s[1:-1])
